@@ -1180,11 +1180,11 @@ func (w *World) notifyQuery(batchArch *batchArchetypes) {
 			if oldRel != nil || newRel != nil {
 				relChanged = (oldRel == nil) != (newRel == nil) || *oldRel != *newRel
 			}
-			targChanged = oldArch.RelationTarget != arch.RelationTarget
+			targChanged = batchArch.OldTarget[i] != arch.RelationTarget
 			changed := event.Added.Xor(&oldArch.node.Mask)
 			event.Added = changed.And(&event.Added)
 			event.Removed = changed.And(&oldArch.node.Mask)
-			event.OldTarget = oldArch.RelationTarget
+			event.OldTarget = batchArch.OldTarget[i]
 			event.OldRelation = oldRel
 		}
 
